@@ -6,7 +6,7 @@ CLAIM = dict(
     technique='CrossHair-driven exploration of WriteLAS.write_curve_and_array_section_to_las -> LASRead over symbolic channel subsets (incl. unknown names), field width, '
               'decimal places, reduction method, frame count and value selection',
     text='Bounded symbolic checking: for a frame array of five channels (float64, float32, int32, a two-valued float64 channel of dimensions (1, 2), a four-valued int16/uint8 channel whose mean and median are fractional), every requested subset (also with an unknown '
-         'name), field widths 4/8/16 (4/5/7/8/12/16 thorough), 1 or 3 decimals (1..4), every reduction method and 8 value patterns (zero, negative, wider than the field, rounding '
+         'name), field widths 4/8/16 (4/5/7/8/12/16 thorough), 1 or 3 decimals (1, 3, 4 thorough), every reduction method and 8 value patterns (zero, negative, wider than the field, rounding '
          'boundary, null) the curve section, the ~A heading and every data row list exactly the first channel plus the requested ones, in order, and reading the text back '
          'gives the same names, units, frame count and every value within half a unit of the last printed decimal.',
     note='Trusted: CrossHair, numpy, LASRead (itself the subject of C09) as the reader; selectors are made concrete by solver-enumerated branching and the writer then runs natively. '
@@ -23,7 +23,7 @@ META = dict(
 def obligations(tier):
     q = tier == 'quick'
     return [
-        Ob('write_then_read_back', 'ch', 'subsets of 4 optional channels (+ unknown name), widths, decimals, 5 reductions, 1..2 frames, 8 value patterns, multi-valued float and integer channels; through the combined writer or the three incremental writers',
+        Ob('write_then_read_back', 'ch', 'subsets of 4 optional channels (+ unknown name), widths, decimals, 5 reductions, 1..2 frames, 8 value patterns, multi-valued float and integer channels; through the combined writer or the three incremental writers; frame array fully initialised or prepared for the subset only (init_arrays_partial)',
            ['LAS.core.WriteLAS.write_curve_and_array_section_to_las', 'write_curve_section_to_las', 'write_array_section_header_to_las', 'write_array_section_data_to_las',
             '_add_x_axis_to_channels_to_write', 'write_array_section_to_las', 'array_reduce', 'common.data_table.format_table', 'LAS.core.LASRead.LASRead'],
            harness='C10_writelas', func='write_read_q' if q else 'write_read', timeout=280 if q else 2400, parts=16),
